@@ -8,4 +8,5 @@ let all : (string * (Model.event list -> bool)) list = [
   ("C13", Model.chk_C13);
   ("C11", Model.chk_C11);
   ("C04", Model.chk_C04);
+  ("C09", Model.chk_C09);
 ]
